@@ -63,7 +63,8 @@ CLAIMS.update({
          "reused implementation object vs the model fold, plus reused-vs-fresh on the implementation.", TECH, ""),
  "C18": ("(1) Generic Coq theorem: processes that never write the shared store do not interfere under ANY interleaving and each is where it would be alone. (2) Purity policy over write-effect summaries "
          "REGENERATED from the current psec source by a fail-closed ast translator on every run (Gen/Effects.v), re-checked by vm_compute (C18_current_tree): no function writes module/class state or a parameter, "
-         "self is written only by the declared mutators (not by wrap/dump/str), no unknown calls/decorators/globals. Standing support: threaded shuffled workload of thousands of items vs single-threaded reference and the model.",
+         "self is written only by the declared mutators (not by wrap/dump/str), no unknown calls/decorators/globals. (3) C18_closure_write_free lifts the policy to whole call closures (dispatch tables resolved), "
+         "side condition and the saturated, fully resolved, mutator-free closure of the API evaluated on the regenerated summaries. Standing support: threaded shuffled workload of thousands of items vs single-threaded reference and the model.",
          "Coq proof (generic interleaving theorem) + regenerated-from-source effect summaries checked by vm_compute + model/implementation correspondence and threaded workload",
          "Partial: the step from the policy to 'write-free process' is the translator's abstraction (trusted); CPython/OpenSSL runtime behaviour under threads is observed, not proved."),
 })
@@ -87,7 +88,9 @@ CLAIMS.update({
  "C14": ("Model theorems: for EVERY tape, format 3 fill = the used tape prefix (so in A-F, position by position) and tape -> block is injective on the used prefix; format 4 tail = tape verbatim, head independent of it; TR-31 "
          "clear key data = length ++ key ++ tape, wrap succeeds only for a tape of exactly pad_len + extra bytes, tape -> key block injective for A/C, B and D. What no model can say - that the tape is drawn afresh from the OS "
          "generator - is observed at run time in a separate interpreter with os.urandom / random._urandom wrapped before psec is imported: OS bytes drawn >= fill, random state untouched, alphabet, per-position frequencies "
-         "within a Hoeffding bound (< 2^-60 false alarm), freshness across runs, random.seed(0) and fork.",
+         "within a Hoeffding bound (< 2^-60 false alarm), joint coverage of short fills, freshness across runs, random.seed(0), fork and concurrent wraps on one object. "
+         "Model/Entropy.v models how secrets.choice consumes OS bytes; proved exactly uniform and independent per symbol (C14_choice_uniform); the monitor checks per call that fill = that function of the OS bytes drawn "
+         "(format 3), tail / TR-31 padding = those bytes verbatim.",
          "Coq proof over the model with an explicit random tape + runtime entropy-provenance monitor + model/implementation correspondence (exists-tape)",
          "Partial: provenance/freshness of the entropy source is monitored, not proved; the OS generator itself is trusted."),
  "C15": ("Theorems for ALL strings (any code points), ALL KBPK byte strings, all keys/masks and every prior object state: header_load, unwrap, KeyBlock.unwrap, wrap with a header string and wrap with a Header object return Ok or "
